@@ -450,14 +450,17 @@ func lowerType(t *TypeSpec, v Val, rv reflect.Value) {
 		if v.Nil {
 			rv.Set(reflect.Zero(rv.Type()))
 		} else {
-			rv.SetBytes(append([]byte{}, v.S...))
+			// spare capacity now and then: len and cap must not be confused by the codec
+			bs := make([]byte, len(v.S), len(v.S)+spareCap(len(v.S)))
+			copy(bs, v.S)
+			rv.SetBytes(bs)
 		}
 	case KList, KSet:
 		if v.Nil {
 			rv.Set(reflect.Zero(rv.Type()))
 			return
 		}
-		s := reflect.MakeSlice(rv.Type(), len(v.L), len(v.L))
+		s := reflect.MakeSlice(rv.Type(), len(v.L), len(v.L)+spareCap(len(v.L)))
 		for i := range v.L {
 			lowerType(t.Elem, v.L[i], s.Index(i))
 		}
@@ -582,3 +585,6 @@ func (b *Bound) NewValue(v *SVal) reflect.Value {
 	b.Lower(v, p.Elem())
 	return p
 }
+
+// spareCap: a deterministic amount of spare capacity for lowered slices.
+func spareCap(n int) int { return [4]int{0, 3, 0, 1}[n%4] }
